@@ -41,6 +41,18 @@ func runC04(c *engine.Ctx, tier string) {
 		Require: notPersistent + " && @CFG.Status.State == config/v2.ConfigurationStatus_SYNCHRONIZING && @CFG.Status.Mastership.Master != \"\"",
 		Why:     "SYNCHRONIZED is reached only from SYNCHRONIZING with a master"})
 	pushGate(c)
+	// the re-push, once it went through, is recorded: otherwise the target stays behind its term for ever
+	// and every later apply waits (C04.3)
+	synced := []engine.Sel{{Field: fState, RHS: "config/v2.ConfigurationStatus_SYNCHRONIZED"}, {Field: fTerm, RHS: "@CFG.Status.Mastership.Term"},
+		{Field: fMaster, RHS: "@CFG.Status.Mastership.Master"}, {Call: stCfgUpdStat}}
+	base := "err(@CFG) == nil && err(@TGT) == nil && " + notPersistent + " && @CFG.Status.State == config/v2.ConfigurationStatus_SYNCHRONIZING && @CFG.Status.Mastership.Master != \"\""
+	c.Outcome(engine.Outcome{ID: "C04.8a", Pkg: pkgConfigCtl, Root: "Reconciler.Reconcile", Min: 1, Consistent: true,
+		When: base + " && @CFG.Status.Applied.Index == 0", Must: synced,
+		Why:  "a target to which nothing was ever applied is synchronized at once, in the new term"})
+	c.Outcome(engine.Outcome{ID: "C04.8b", Pkg: pkgConfigCtl, Root: "Reconciler.Reconcile", Min: 1, Consistent: true,
+		When: base + " && @CFG.Status.Applied.Index != 0 && err(@REL) == nil && controller/utils.GetOnosConfigID() == {@REL}topo.Object.GetRelation().SrcEntityID && ok(@CONN) && !#failed(" + sbSet + ") && !#failed(utils/v2/values.PathValuesToGnmiChange)",
+		Must: synced,
+		Why:  "after every applied value was sent without error the configuration is SYNCHRONIZED in the current term and master"})
 	c.Guard(engine.Guard{ID: "C04.1c", Pkg: pkgConfigCtl, None: true, Rule: "K-own(rhs)",
 		Sel: engine.Sel{Field: fMaster, NotRHS: "@CFG.Status.Mastership.Master", Lit: true},
 		Why: "the applied master is a copy of the current master"})
@@ -181,6 +193,24 @@ func pushGate(c *engine.Ctx) {
 				}
 				if fill >= 0 {
 					sawFill = true
+					// the fill loop is entered under Applied.Values != nil, never under == nil
+					for _, l := range engine.CondsBefore(p, fill) {
+						if l.L == applied && l.RNil && l.Mask == 2 && bad == "" {
+							bad = "the loop that collects the applied values runs only when Status.Applied.Values is nil: a non-empty applied configuration is never pushed"
+						}
+					}
+				}
+				if fill < 0 && bad == "" {
+					// no fill loop on this path: only admissible when there is nothing to push
+					isNil := false
+					for _, l := range engine.CondsBefore(p, push) {
+						if l.L == applied && l.RNil && l.Mask == 2 {
+							isNil = true
+						}
+					}
+					if !isNil {
+						bad = "the push loop is reached without the loop that collects Status.Applied.Values, on a path that does not establish that they are nil"
+					}
 				}
 				if bad == "" && fill >= 0 {
 					fe := &p.Events[fill]
